@@ -170,6 +170,106 @@ def run_cases(run, cases, exe, src):
     return disagreements, stats
 
 
+MK_COMPS = ["a", "b", "c", "d", "x.y", "..."]
+
+
+def gen_mk_cases(rng, tier):
+    """(existing directories, name) pairs for os.makedirs.  Family `inside`: D = out exists, the name is
+    D/c1/../cn with clean components (the premise of C15_makedirs_creates_only_inside), an arbitrary
+    prefix of the chain and arbitrary other directories exist.  Family `quirk`: trailing '/', '/.',
+    doubled slashes, './' components, three leading slashes, existing targets, names not under out."""
+    cases = []
+    n = 400 if tier == "quick" else 6000
+    for i in range(n):
+        dirs = ["out"] if rng.random() < 0.9 else []
+        for _ in range(rng.choice([0, 1, 1, 2, 3])):
+            chain = [rng.choice(MK_COMPS) for _ in range(rng.randint(1, 4))]
+            dirs.append("/".join((["out"] if rng.random() < 0.8 else []) + chain))
+        if dirs and rng.random() < 0.7:
+            basep = rng.choice(dirs).split("/")
+            basep = basep[:rng.randint(1, len(basep))]
+        else:
+            basep = ["out"] if rng.random() < 0.7 else []
+        comps = basep + [rng.choice(MK_COMPS) for _ in range(rng.choice([0, 1, 1, 2, 3, 4]) if basep else rng.randint(1, 4))]
+        absolute = rng.random() < 0.5
+        quirk = rng.random() < 0.4
+        name = "/".join(comps)
+        if quirk:
+            k = rng.choice(["slash", "dot", "double", "dotcomp", "slashdot", "triple"])
+            if k == "slash":
+                name += "/"
+            elif k == "dot":
+                name += "/."
+            elif k == "slashdot":
+                name += "/./"
+            elif k == "double" and len(comps) > 1:
+                j = rng.randrange(1, len(comps))
+                name = "/".join(comps[:j]) + "//" + "/".join(comps[j:])
+            elif k == "dotcomp" and len(comps) > 1:
+                j = rng.randrange(1, len(comps))
+                name = "/".join(comps[:j]) + "/./" + "/".join(comps[j:])
+            elif k == "triple":
+                absolute = True
+        name = ("$ROOT/" + name) if absolute else name
+        if quirk and k == "triple":
+            name = "//" + name
+        inside = "out" in dirs and comps[0] == "out" and len(comps) > 1 and name in ("/".join(comps), "$ROOT/" + "/".join(comps))
+        cases.append({"id": i, "dirs": dirs, "path": name, "inside": inside})
+    return cases
+
+
+def run_mk_cases(run, cases, exe, src):
+    """tie makedirs_fs (extracted) vs the real os.makedirs; and the statement of
+    C15_makedirs_creates_only_inside observed on the real calls."""
+    sbox = os.path.join(core.scratch(), "c15mk")
+    os.makedirs(sbox, exist_ok=True)
+    inp = "".join(json.dumps(c) + "\n" for c in cases)
+    rc, out = core.run_impl("vt.harness.c15_mkdirs", [sbox], src=src, input=inp, timeout=3000)
+    results = [json.loads(ln) for ln in out.splitlines() if ln.startswith("{")]
+    if rc != 0 or len(results) != len(cases):
+        raise RuntimeError("makedirs harness failed rc=%s got %d/%d results: %s" % (rc, len(results), len(cases), out[-800:]))
+    lines = []
+    for r in results:
+        if "harness_error" in r:
+            raise RuntimeError("harness error: " + r["harness_error"])
+        root = r["root"]
+        anc = ["/"]
+        for part in root.strip("/").split("/"):
+            anc.append(anc[-1].rstrip("/") + "/" + part)
+        dirs = ["."] + anc + [e for e in r["existing"]] + [root + "/" + e for e in r["existing"]]
+        lines.append("MK|" + "|".join(core.cps(x) for x in [r["path"]] + dirs) + "\n")
+    p = subprocess.run([exe], input="".join(lines), capture_output=True, text=True, timeout=3000)
+    mlines = p.stdout.splitlines()
+    if len(mlines) != len(results):
+        raise RuntimeError("model driver returned %d/%d lines" % (len(mlines), len(results)))
+    dis, escapes = [], []
+    stats = {"DONE": 0, "EXISTS": 0, "OSERROR": 0, "inside_family": 0, "created_0": 0, "created_1": 0, "created_2plus": 0}
+    for c, r, ml in zip(cases, results, mlines):
+        root = r["root"]
+        top = os.path.dirname(root)
+        cr_s, mout = ml.split("#")
+        mcreated = sorted(os.path.relpath(os.path.normpath(os.path.join(root, core.uncps(x))), top) for x in cr_s.split(";") if x)
+        key = ("makedirs", tuple(sorted(c["dirs"])), c["path"])
+        run.count(key, nontrivial=len(r["created"]) >= 2 or c["path"].replace("$ROOT/", "") != os.path.normpath(c["path"].replace("$ROOT/", "")))
+        stats[r["outcome"]] += 1
+        stats["created_0" if not r["created"] else "created_1" if len(r["created"]) == 1 else "created_2plus"] += 1
+        if mout != r["outcome"] or mcreated != r["created"]:
+            dis.append("makedirs dirs=%r path=%r: impl %s %r model %s %r" % (c["dirs"], c["path"], r["outcome"], r["created"], mout, mcreated))
+        # the property on the real calls: nothing removed, nothing outside the sandbox root; for the
+        # `inside` family every mkdir call and every new directory is strictly below D = <root>/out
+        bad = [x for x in r["created"] if not x.startswith("r/")] + r["removed"]
+        if c["inside"]:
+            stats["inside_family"] += 1
+            D = root + "/out"
+            bad += [x for x in r["created"] if not x.startswith("r/out/")]
+            bad += [x for x in r["mkdir_calls"] if not os.path.normpath(os.path.join(root, x)).startswith(D + "/")]
+        if bad:
+            escapes.append("dirs=%r path=%r: %r" % (c["dirs"], c["path"], bad[:4]))
+        if c["inside"] and len(r["created"]) >= 2 and sum(1 for s in run.samples if "makedirs" in s) < 2:
+            run.sample({"makedirs": c["path"], "existing": c["dirs"], "created": r["created"], "outcome": r["outcome"]}, limit=8)
+    return dis, escapes, stats
+
+
 def build():
     return core.ocaml_build("c15", "C15/Extract.v", "driver.ml")
 
@@ -180,9 +280,13 @@ def check(run):
                 "ones, with / or \\ separators, relative/absolute/double-slash, file or directory members; 12 destination "
                 "spellings; plus histories of 2-3 archives extracted by one process into sibling destinations where later archives "
                 "name files of earlier destinations. distinct = distinct (dst, names); non-trivial = some name contains '..', an absolute prefix, a "
-                "backslash or '//'")
+                "backslash or '//'.  os.makedirs cases: (existing directories, name) with 0-3 existing chains of depth 1-5 over 6 components, mostly "
+                "under out/, name = a prefix of an existing chain extended by 0-4 components, relative or absolute, 40% with a quirk (trailing '/', "
+                "'/.', '/./', '//', './' component, three leading slashes); non-trivial = >=2 directories created or a non-normalised name")
     run.trusted = ["Coq 8.16.1 kernel (coqc), vm_compute in the Example only", "extraction (ExtrOcamlBasic directives only) + ocaml/c15/driver.ml",
                    "hand-written model of posixpath.normpath/join/dirname/abspath and of extract_member/extractall (coq/C15/Model.v); tie = differential run",
+                   "hand-written model of posixpath.split and os.makedirs (coq/C15/ModelMkdirs.v, CPython 3.12 Lib/os.py:200-230); tie = makedirs_fs vs real os.makedirs "
+                   "on a directories-only file system; expand_ops (isdir guard + makedirs + open) is proved about but not separately tied",
                    "zipfile (reading member names), the kernel's path resolution; premise: destination exists and contains no symlinks"]
     run.assumptions = ["POSIX separators; the destination is a fresh directory (no pre-existing symlinks inside)",
                        "lexical containment (no '..', '.', '' components below the destination) implies real containment without symlinks"]
@@ -203,6 +307,12 @@ def check(run):
     dis, stats = run_cases(run, ccases + cases, exe, src)
     run.tie("extractall: model vs nuwiki.extractall (outcome, writes, makedirs)", len(ccases) + len(cases), dis)
     run.coverage["outcome_distribution"] = stats
+    mk_cases = gen_mk_cases(run.rng, run.tier)
+    mdis, mesc, mstats = run_mk_cases(run, mk_cases, exe, src)
+    run.tie("os.makedirs: makedirs_fs (model on fs_world) vs the real os.makedirs (created directories, outcome)", len(mk_cases), mdis)
+    run.obligation("real os.makedirs: every mkdir call / new directory strictly inside D (inside family), nothing outside the sandbox",
+                   not mesc, "; ".join(mesc[:3]) if mesc else "%d cases, %d in the inside family" % (len(mk_cases), mstats["inside_family"]))
+    run.coverage["makedirs_distribution"] = mstats
     run.coverage["exhaustive"] = False
     run.coverage["exhaustive_part"] = "all names of <=%d components over the 8-component alphabet" % (3 if run.tier == "quick" else 4)
 
